@@ -165,10 +165,20 @@ def run_sitebatch_case(ctx, case):
 
 
 # -------------------------------------------------------------- OptionManager ----
+WORD_NAMES = ["exact", "pattern", "key", "value", "values", "taskid", "task", "tasks",
+              "options", "option", "kwargs", "args", "regex", "match", "flags", "strict",
+              "item", "items", "index", "other", "dd", "n", "id", "type", "cls"]
+
+
 def gen_options(rng, ctx):
     nopt = int(rng.integers(1, 5))
     names = list(rng.choice(["alpha", "beta", "month", "model", "k", "site_id",
                              "x1", "opt"], size=nopt, replace=False))
+    if rng.random() < 0.35:
+        # option names that are ordinary words - and happen to be the names programmers
+        # give to parameters and local variables
+        ctx.tag("opm:option-named-like-a-parameter")
+        names[int(rng.integers(0, nopt))] = str(rng.choice(WORD_NAMES))
     opts = {}
     for nm in names:
         nv = int(rng.integers(1, 6))
@@ -215,6 +225,14 @@ def run_opm(ctx):
             context = {"folder": "/a/b", "nval": int(rng.integers(0, 100))}
             if rng.random() < 0.5:
                 context["flag"] = bool(rng.integers(0, 2))
+            if rng.random() < 0.5:
+                # structured context values: nested and ragged lists, dictionaries, None
+                ctx.tag("opm:structured-context")
+                pool = [[[1], [2, 3]], [1, [2, 3]], [[], ["a"]], [[1, 2], [3, 4]],
+                        {"a": [1, [2]], "b": None}, None, [], [None, 1], "",
+                        [[1.5, 2.5, 3.5], [4.5]], {"nested": {"deep": [[0], [1, 2]]}}]
+                for nm_ in ("windows", "extra")[:int(rng.integers(1, 3))]:
+                    context[nm_] = pool[int(rng.integers(0, len(pool)))]
         rename = None
         if rng.random() < 0.3:
             rename = {"context_name": "config", "task_options_name": "opts",
